@@ -313,7 +313,17 @@ func (w *WAL) mutateStateLocked(tx stateTxn) error {
 
 	w.s.Store(&newS)
 	verifhook.At("mutate.stored", w.dir)
-	s.finalizer.Store(fn)
+	// Readers that still hold the old state share open segment files with the
+	// new state. Keep a reference on the new state on their behalf until the old
+	// one is fully released, so that a later finalizer (e.g. from Close) can't
+	// close those files while they are still being read.
+	releaseNew := newS.acquire()
+	s.finalizer.Store(func() {
+		if fn != nil {
+			fn()
+		}
+		releaseNew()
+	})
 	return nil
 }
 
@@ -322,9 +332,20 @@ func (w *WAL) mutateStateLocked(tx stateTxn) error {
 // data within it will be performed to free old files that may have been
 // truncated concurrently.
 func (w *WAL) acquireState() (*state, func()) {
-	s := w.loadState()
-	verifhook.At("acquireState.loaded", w.dir)
-	return s, s.acquire()
+	for {
+		s := w.loadState()
+		verifhook.At("acquireState.loaded", w.dir)
+		release := s.acquire()
+		// The state may have been replaced between loading it and taking our
+		// reference. In that case its refCount may already have dropped to zero and
+		// its finalizer (which closes and deletes files) may already have run, so
+		// it's not safe to use. A state that is still current can't have a
+		// finalizer yet so if it's unchanged we are good.
+		if s == w.loadState() {
+			return s, release
+		}
+		release()
+	}
 }
 
 // newSegment creates a types.SegmentInfo with the passed ID and baseIndex, filling in
